@@ -19,7 +19,7 @@ def first_pass():
 def main():
     fp = first_pass()
     rows = []
-    rnd_of = lambda name: {"1": 1, "2": 1, "3": 2, "4": 2, "5": 3, "6": 3}.get(name[-1], 0)
+    rnd_of = lambda name: {"1": 1, "2": 1, "3": 2, "4": 2, "5": 3, "6": 3, "7": 4, "8": 4}.get(name[-1], 0)
     for d in sorted((ROOT / "seeded").iterdir(), key=lambda x: (rnd_of(x.name), x.name)):
         if not (d / "meta.json").exists():
             continue
